@@ -49,7 +49,10 @@ Canonical(kw) == CASE kw = "implements" -> <<"SP", "L">> [] kw = "constructor" -
 Classes == {"SP", "L", "U", "D", "SL", "DA", "DO", "CO", "AM", "X", "N", "K2"}
 Keywords == {"implements", "constructor", "immutable", "testonly", "mutable", "packageonly", "ignore"}
 NearKeywords == {"Immutable", "at_space_immutable", "no_at_immutable"}
-Pres == {"", "sp", "tab", "spsp", "text"}
+Pres == {"", "sp", "tab", "spsp", "text", "slashes", "slashes0", "tabslashes"}
+\* text: words before the keyword; slashes / slashes0 / tabslashes: a second comment marker (` // @kw`, `//@kw`, `<TAB>// @kw` after the
+\* opener: a switched-off annotation or a godoc code block) - both are not blank
+BlankPre(p) == p \in {"", "sp", "tab", "spsp"}
 Simple == {"immutable", "testonly", "mutable"}
 Lists == {"constructor", "packageonly", "ignore"}
 
@@ -114,7 +117,7 @@ L1Impl(r) ==
                ELSE None
 
 L1(ln) ==
-  IF ln.opener # "//" \/ ln.pre = "text" \/ ln.kw \notin Keywords THEN None
+  IF ln.opener # "//" \/ ~BlankPre(ln.pre) \/ ln.kw \notin Keywords THEN None
   ELSE IF ln.kw \in Simple THEN (IF ln.rest = <<>> \/ ln.rest[1] = "SP" THEN Yes(FALSE, <<>>, <<>>) ELSE None)
   ELSE IF ln.kw = "implements" THEN L1Impl(ln.rest)
   ELSE L1List(ln.kw, ln.rest)
@@ -151,7 +154,7 @@ ListResult(b, tc) == IF tc THEN [None EXCEPT !.rec = "unspec"]
 
 Begin ==
   /\ st = "begin"
-  /\ IF line.opener # "//" \/ line.pre = "text" \/ line.kw \notin Keywords THEN Halt(None)
+  /\ IF line.opener # "//" \/ ~BlankPre(line.pre) \/ line.kw \notin Keywords THEN Halt(None)
      ELSE IF AtEnd THEN Halt(IF line.kw \in Simple \/ line.kw = "packageonly" THEN Yes(FALSE, <<>>, <<>>) ELSE None)
      ELSE IF C # "SP" THEN Halt(None)                                  \* the keyword must be followed by end or whitespace
      ELSE IF line.kw \in Simple THEN Halt(Yes(FALSE, <<>>, <<>>))
